@@ -6,6 +6,7 @@ import (
 	"go/constant"
 	"go/token"
 	"go/types"
+	"math"
 	"sort"
 	"strconv"
 	"strings"
@@ -187,6 +188,23 @@ func gfCompare(a, b *bexpr, f func(va, vb bool, desc func() string) bool) (valua
 				}
 			}
 		}
+		// an integer-valued term never lies strictly between two consecutive integer constants
+		for _, t := range ts {
+			if !okPins {
+				break
+			}
+			if _, isNum := numConst(t); isNum || !gfIsIntTerm(t) {
+				continue
+			}
+			for i := 0; i < len(pins) && okPins; i++ {
+				for j := 0; j < len(pins); j++ {
+					if pins[j].v == pins[i].v+1 && pins[i].v == math.Trunc(pins[i].v) && rank[pins[i].t] < rank[t] && rank[t] < rank[pins[j].t] {
+						okPins = false
+						break
+					}
+				}
+			}
+		}
 		if !okPins {
 			continue
 		}
@@ -301,6 +319,108 @@ func intConstOf(info *types.Info, e ast.Expr) (int64, bool) {
 	return 0, false
 }
 
+// boolLocalInit: id uses a boolean local that is defined once (`x := <expr>`, never assigned again,
+// address not taken) by a boolean expression whose variables are themselves never re-assigned in
+// the function: the definition, else nil.
+func (c *Ctx) boolLocalInit(info *types.Info, id *ast.Ident) ast.Expr {
+	obj, ok := info.Uses[id].(*types.Var)
+	if !ok || obj.IsField() {
+		return nil
+	}
+	if b, ok := obj.Type().Underlying().(*types.Basic); !ok || b.Info()&types.IsBoolean == 0 {
+		return nil
+	}
+	c.autoOpts(info, id) // fills declSpans
+	var fd *ast.FuncDecl
+	for _, d := range c.declSpans {
+		if d.Pos() <= id.Pos() && id.Pos() < d.End() {
+			fd = d
+		}
+	}
+	if fd == nil {
+		return nil
+	}
+	if c.boolInitCache == nil {
+		c.boolInitCache = map[*ast.FuncDecl]map[types.Object]ast.Expr{}
+	}
+	m, ok := c.boolInitCache[fd]
+	if !ok {
+		m = map[types.Object]ast.Expr{}
+		writes := map[types.Object]int{}
+		init := map[types.Object]ast.Expr{}
+		ast.Inspect(fd.Body, func(n ast.Node) bool {
+			switch s := n.(type) {
+			case *ast.AssignStmt:
+				for i, l := range s.Lhs {
+					if o := identObj(info, l); o != nil {
+						writes[o]++
+						if s.Tok == token.DEFINE && len(s.Lhs) == len(s.Rhs) {
+							init[o] = s.Rhs[i]
+						} else {
+							writes[o]++
+						}
+					}
+				}
+			case *ast.IncDecStmt:
+				if o := identObj(info, s.X); o != nil {
+					writes[o] += 2
+				}
+			case *ast.UnaryExpr:
+				if s.Op == token.AND {
+					if o := identObj(info, s.X); o != nil {
+						writes[o] += 2
+					}
+				}
+			case *ast.RangeStmt:
+				// loop variables change per iteration, but a local defined in the body from them is
+				// defined anew each time: they count as written once
+			}
+			return true
+		})
+		for o, e := range init {
+			if writes[o] != 1 {
+				continue
+			}
+			if b, ok := o.Type().Underlying().(*types.Basic); !ok || b.Info()&types.IsBoolean == 0 {
+				continue
+			}
+			switch unparen(e).(type) {
+			case *ast.BinaryExpr, *ast.UnaryExpr:
+			default:
+				continue
+			}
+			stable := true
+			ast.Inspect(e, func(n ast.Node) bool {
+				switch q := n.(type) {
+				case *ast.CallExpr:
+					if fn := calleeOf(info, q); fn != nil {
+						c.indexAccessors()
+						if _, isGetter := c.getters[fn]; isGetter {
+							return true
+						}
+					}
+					if fid, ok := unparen(q.Fun).(*ast.Ident); ok {
+						if bi, ok := info.Uses[fid].(*types.Builtin); ok && bi.Name() == "len" {
+							return true
+						}
+					}
+					stable = false
+				case *ast.Ident:
+					if v, ok := info.Uses[q].(*types.Var); ok && !v.IsField() && writes[v] > 1 {
+						stable = false
+					}
+				}
+				return stable
+			})
+			if stable {
+				m[o] = e
+			}
+		}
+		c.boolInitCache[fd] = m
+	}
+	return m[obj]
+}
+
 // toBexpr converts a Go boolean expression into a bexpr over canonical term keys.
 func (c *Ctx) toBexpr(info *types.Info, e ast.Expr, o *canonOpts) *bexpr {
 	e = unparen(e)
@@ -308,6 +428,11 @@ func (c *Ctx) toBexpr(info *types.Info, e ast.Expr, o *canonOpts) *bexpr {
 		return bConst(constant.BoolVal(tv.Value))
 	}
 	switch x := e.(type) {
+	case *ast.Ident:
+		// an explanatory boolean local (`inRange := lo < v && v <= hi`) stands for its definition
+		if init := c.boolLocalInit(info, x); init != nil {
+			return c.toBexpr(info, init, o)
+		}
 	case *ast.UnaryExpr:
 		if x.Op == token.NOT {
 			return bNot(c.toBexpr(info, x.X, o))
@@ -387,9 +512,18 @@ func (c *Ctx) inlinePredicate(info *types.Info, call *ast.CallExpr, o *canonOpts
 	return c.toBexpr(ginfo, rs.Results[0], o2)
 }
 
+// gfIntTerms: canonical texts of comparison operands whose static type is an integer (recorded
+// by cmpBexpr and intCmp); len(...) is one by construction.
+var gfIntTerms = map[string]bool{}
+
+func gfIsIntTerm(t string) bool { return strings.HasPrefix(t, "len(") || gfIntTerms[t] }
+
 // cmpBexpr normalises integer comparisons with a constant so that `x > 1` and `x >= 2` meet.
 func (c *Ctx) cmpBexpr(info *types.Info, l ast.Expr, op token.Token, r ast.Expr, o *canonOpts) *bexpr {
 	a, b := c.canon(info, l, o), c.canon(info, r, o)
+	if isIntType(info, l) && isIntType(info, r) {
+		gfIntTerms[a], gfIntTerms[b] = true, true
+	}
 	if isIntType(info, l) || isIntType(info, r) {
 		if v, ok := intConstOf(info, r); ok {
 			switch op {
@@ -412,6 +546,7 @@ func (c *Ctx) cmpBexpr(info *types.Info, l ast.Expr, op token.Token, r ast.Expr,
 
 // intCmp builds a spec-side integer comparison with the same normalisation.
 func intCmp(a string, op token.Token, v int64) *bexpr {
+	gfIntTerms[a] = true
 	switch op {
 	case token.GTR:
 		return bCmp(a, token.GEQ, strconv.FormatInt(v+1, 10))
